@@ -36,7 +36,8 @@ CHECKS = {
        "bytes through all six iterators with every accessor called under catch_unwind, every CID x truncation point, mutated 255-byte streams, and the frame parsers. "
        "The public payload constructors (a second way to obtain a view): C03_fixed_constructor_view (macro template: exactly len bytes), C03_mcgroupstatus_constructor_view / "
        "_refuses_short / C03_constructor_matches_iterator (the view is the status byte plus one whole 5-byte item per bit of AnsGroupMask, as long as the stream iterator makes it; "
-       "shorter input is refused), tied to the code over every status byte x lengths 0..23 with every accessor called and an independent TS005 oracle.",
+       "shorter input is refused; C03_channel_mask_constructor: ChannelMask::new refuses fewer than N bytes and keeps the first N of anything longer), tied to the code "
+       "over every status byte x lengths 0..23, mask lengths 0..13, with every accessor called and independent oracles.",
   note=COMMON_NOTE + "The proc-macro itself is not verified: its generated behaviour is modelled generically (Model/MacCmd.v) and tied by the exhaustive differential run; its table input is tied by the translator (trusted python, ~200 lines). Memory safety of safe Rust is the compiler's business.",
   tech="machine-checked proof in Coq (generic over command tables) + translator-regenerated tables/index sets + exhaustive short-string correspondence", ref="6 C03"),
  "C17": dict(
